@@ -17,6 +17,7 @@ class Corpus:
         self.rejected = {}        # pid -> compiler panic text
         self.unbuildable = {}     # pid -> first type error
         self.compile_s = 0.0
+        self.twin_where = {}      # pid -> twin package dir (under twin/)
         self.driver_bin = None
         self.stage1 = False       # also produce unopt/<dir> through the verif hook
 
@@ -31,6 +32,17 @@ class Corpus:
         for pid, p in sorted(self.programs.items()):
             groups.setdefault(group(p), []).append(p)
         self.batches = []
+        # native reference twins (rt.Co coroutines), printed from the same AST, plain Go packages
+        twins = [(p, p.twin_source(K, extra_adv, nlo, nhi)) for p in self.programs.values()]
+        twins = [(p, t) for p, t in twins if t]
+        for i in range(0, len(twins), 40):
+            d = "%s_%d" % (self.fam, i // 40)
+            td = os.path.join(ws, "twin", d)
+            os.makedirs(td, exist_ok=True)
+            for p, t in twins[i:i + 40]:
+                with open(os.path.join(td, "gen_%s.go" % p.pid), "w") as f:
+                    f.write("package corp\n\nimport rt \"verifws/verifrt\"\n\nvar _ = rt.Emit\n\n" + t)
+                self.twin_where[p.pid] = d
         for g, ps in sorted(groups.items()):
             for i in range(0, len(ps), batch):
                 d = "%s_%s_%d" % (self.fam, g, i // batch)
@@ -214,6 +226,20 @@ def process_two_world(ctx, corp, res, impl_tree="out", max_replay=40, ref_tree="
                 print("ERROR engine-mismatch property=%s driver=%s: native implementation log differs from the engine's prediction" % (ctx.pid, d["name"]))
                 details.append({"driver": d["name"], "engine_mismatch": True, "engine_impl_log": f["logs"].get("1"), "native": n})
                 continue
+            twin_ok = None
+            if pid in corp.twin_where and ref_tree == "src" and "map-order" not in tags:
+                tn, _ = runner.native_replay(ctx, "twin/" + corp.twin_where[pid], [(fn, "Drive_TG" + pid, f["model"])])
+                t = tn.get(fn)
+                if t is not None:
+                    twin_ok = runner.norm_events(f["logs"].get("0", [])) == [e.strip() for e in t["logs"].get("0", [])]
+                    if not twin_ok and t.get("panic") not in ("", "<nil>", None):
+                        pred = runner.norm_events(f["logs"].get("0", []))
+                        twin_ok = pred[:-1] == [e.strip() for e in t["logs"].get("0", [])] and pred[-1].startswith("6 ")
+                    if not twin_ok:
+                        mismatches += 1
+                        print("ERROR engine-mismatch property=%s driver=%s: the native reference twin (goroutine coroutine) disagrees with the engine's reference log" % (ctx.pid, d["name"]))
+                        details.append({"driver": d["name"], "engine_mismatch": "reference twin", "engine_ref_log": f["logs"].get("0"), "native_twin": t})
+                        continue
             k = runner.match_known(ctx.pid, d["name"], f, tags)
             src_file = os.path.join(ctx.ws, ref_tree, dirn, "gen_%s.go" % pid)
             out_file = os.path.join(ctx.ws, impl_tree, dirn, "gen_%s.go" % pid)
@@ -224,11 +250,46 @@ def process_two_world(ctx, corp, res, impl_tree="out", max_replay=40, ref_tree="
                 new += 1
                 meta = {"property": ctx.pid, "driver": d["name"], "kind": f["kind"], "msg": f["msg"], "model": f["model"],
                         "reference_log(engine, coroutine semantics)": f["logs"].get("0"), "implementation_log(engine)": f["logs"].get("1"),
-                        "native_implementation_run": n, "natively_confirmed": bool(confirmed), "tags": sorted(tags),
+                        "native_implementation_run": n, "natively_confirmed": bool(confirmed), "reference_confirmed_by_native_twin": twin_ok, "tags": sorted(tags),
                         "rerun": "place the saved source in a package of a module that replaces go-co with /repo, compile with rewriter.Compile, run Drive_G%s with verifrt.SetVec(model)" % pid}
                 files = [src_file, out_file] + ([testfile] if testfile else [])
                 path = runner.save_replay(ctx, d["name"] + json.dumps(f["model"], sort_keys=True), files, meta)
                 print("VIOLATION property=%s replay=%s" % (ctx.pid, path))
-            details.append({"driver": d["name"], "known": bool(k), "natively_confirmed": confirmed, "tags": sorted(tags),
+            details.append({"driver": d["name"], "known": bool(k), "natively_confirmed": confirmed, "reference_confirmed_by_native_twin": twin_ok, "tags": sorted(tags),
                             "failure": {"kind": f["kind"], "msg": f["msg"], "model": f["model"], "ref": f["logs"].get("0"), "impl": f["logs"].get("1")}})
     return new, known, replayed, mismatches, details
+
+
+def twin_validate(ctx, corp, res, max_pkgs=3, per_pkg=12):
+    """Reference-side self-validation: for sampled decided drivers the engine's reference log
+    (coroutine semantics of DESIGN 2) must equal the log of the native twin, in which the same body
+    runs as a goroutine-backed coroutine (verifrt.Co). Returns (validated, mismatches)."""
+    by_pkg = {}
+    for d in res["drivers"]:
+        if d["status"] != "holds" or not d.get("samples") or d.get("_extra"):
+            continue
+        pid = corp.pid_of_driver(d["name"])
+        if pid not in corp.twin_where:
+            continue
+        if "map-order" in corp.programs[pid].tags:
+            continue  # native map iteration order is random
+        smp = d["samples"][0]
+        if not smp.get("logs"):
+            continue
+        by_pkg.setdefault(corp.twin_where[pid], []).append((pid, smp))
+    validated, mism = 0, 0
+    pkgs = sorted(by_pkg)[:max_pkgs * (3 if ctx.thorough else 1)]
+    for d in pkgs:
+        cases = by_pkg[d][:per_pkg]
+        nat, _ = runner.native_replay(ctx, "twin/" + d, [(pid, "Drive_TG" + pid, smp.get("model") or {}) for pid, smp in cases])
+        for pid, smp in cases:
+            t = nat.get(pid)
+            if t is None:
+                continue
+            validated += 1
+            if runner.norm_events(smp["logs"].get("0", [])) != [e.strip() for e in t["logs"].get("0", [])]:
+                mism += 1
+                print("ERROR engine-mismatch property=%s program=G%s: the native reference twin prints a different log than the engine's reference semantics" % (ctx.pid, pid))
+                print("  engine ref:", json.dumps(smp["logs"].get("0"))[:500])
+                print("  native twin:", json.dumps(t)[:500])
+    return validated, mism
